@@ -35,7 +35,8 @@ class Ctx(object):
         self.t0 = time.time()
         self.workdir = os.path.join(akbuild.BUILD, "run", prop)
         os.makedirs(self.workdir, exist_ok=True)
-        self.replaydir = os.path.join(VERIF, "replays")
+        self.outroot = os.environ.get("VERIF_OUT", VERIF)      # mutant runs write evidence/replays elsewhere
+        self.replaydir = os.path.join(self.outroot, "replays")
         os.makedirs(self.replaydir, exist_ok=True)
         if clean_replays:
             for f in os.listdir(self.replaydir):
@@ -69,7 +70,10 @@ class Ctx(object):
     def tlc_phase(self, name, module, consts, invariants=(), properties=(), replay_cases=True,
                   translate=("replay", "steps_for"), judge_fn=("replay", "judge"), variant="opt",
                   require_actions=(), timeout=1500, simulate=None, depth=None, worker_env=None,
-                  max_cases=None, seed_tlc=False, record=None, **kw):
+                  max_cases=None, seed_tlc=False, record=None, sample_cases=None, **kw):
+        only = os.environ.get("VERIF_ONLY_PHASES")          # development aid: run a subset of the phases
+        if only and name not in only.split(","):
+            return None
         wd = os.path.join(self.workdir, name)
         r = tlc.run_tlc(module, consts, wd, invariants=invariants, properties=properties,
                         timeout=timeout, simulate=simulate, depth=depth,
@@ -90,7 +94,7 @@ class Ctx(object):
         if replay_cases and r.ncases:
             built = self.build(variant)
             stats, fails = replay.replay_cases(built["worker"], r.cases_path, seed=self.seed, env=worker_env,
-                                               translate=translate, judge_fn=judge_fn, max_cases=max_cases,
+                                               translate=translate, judge_fn=judge_fn, max_cases=max_cases, sample_cases=sample_cases,
                                                record=(record + (r.cases_path,) if record else None))
             ph["replayed"] = stats["n"]
             ph["replay_ok"] = stats["ok"]
@@ -159,8 +163,8 @@ class Ctx(object):
               "assumptions": list(assumptions) + ["small-scope hypothesis: bounds listed per phase",
                                                    "libawkward built from /repo's working tree with the rapidjson stand-in"],
               "wall_s": round(wall, 1), "violations": nviol}
-        os.makedirs(os.path.join(VERIF, "evidence"), exist_ok=True)
-        with open(os.path.join(VERIF, "evidence", self.prop + ".json"), "w") as f:
+        os.makedirs(os.path.join(self.outroot, "evidence"), exist_ok=True)
+        with open(os.path.join(self.outroot, "evidence", self.prop + ".json"), "w") as f:
             json.dump(ev, f, indent=1)
         for f_ in self.findings:
             if f_.get("status") == "known" and self.known_hits.get(f_["id"], 0) > 0:
